@@ -90,7 +90,7 @@ Proof. intros H. unfold get_or_create, media_get. rewrite H. reflexivity. Qed.
 
 Theorem fast_path_step url_ok fs st p sid :
   reg_get (ps_reg st) (canonical_path p) = Some sid ->
-  pstep url_ok fs st (PReq p) = (st, POReq (GExisting sid) (Some sid) []).
+  pstep url_ok fs st (PReq p) = (st, POReq (GExisting sid) (Some sid) [] (ps_reg st)).
 Proof.
   intros H. unfold pstep, pstep_with. rewrite (fast_path _ _ _ _ _ H). reflexivity.
 Qed.
@@ -154,6 +154,38 @@ Proof.
     split; [apply dir_path_decomp; exact C0|]. subst r. cbn in *. split; [reflexivity|exact KF].
 Qed.
 
+(* ---------- the factory contract ---------- *)
+(* a factory that hands its localPath to media.NewStream and registers the stream *)
+Theorem newstream_honest can ok real :
+  honest {| f_can := can; f_ok := ok; f_real := real; f_key := newstream_key |}.
+Proof. intros lp url. reflexivity. Qed.
+
+Lemma canonical_path_nonempty p : canonical_path p <> [].
+Proof. destruct (canonical_path_lr p) as [_ [t E]]. rewrite E. discriminate. Qed.
+
+(* service/rtsp NewPullClient: the publish path it computes from localPath is CanonicalPath(localPath) —
+   the `path == ""` branch (fall back to the path of the remote URL) is dead, the url.Parse of
+   "rtsp://localhost"+path only validates — and NewStream's canonicalisation leaves it alone *)
+Theorem pull_client_path_is_canonical url_path lp url :
+  pull_client_path url_path lp url = canonical_path lp.
+Proof.
+  unfold pull_client_path. destruct (canonical_path lp) eqn:E; [|reflexivity].
+  exfalso. exact (canonical_path_nonempty lp E).
+Qed.
+
+Theorem rtsp_factory_contract url_path can ok :
+  honest {| f_can := can; f_ok := ok; f_real := true; f_key := rtsp_key url_path |}.
+Proof.
+  intros lp url. cbn [f_key]. unfold rtsp_key. rewrite pull_client_path_is_canonical.
+  apply canonical_path_idem.
+Qed.
+
+Lemma key_code_honest fs i lp url : Forall honest fs -> key_code fs i lp url = canonical_path lp.
+Proof.
+  intros H. unfold key_code. destruct (nth_error fs i) as [f|] eqn:N; [|reflexivity].
+  apply nth_error_In in N. rewrite Forall_forall in H. apply (H f N).
+Qed.
+
 (* ---------- histories ---------- *)
 Lemma prun_with_cons step st o ops :
   prun_with step st (o :: ops) =
@@ -163,11 +195,11 @@ Proof.
   destruct (prun_with step st1 ops) as [st2 outs]. reflexivity.
 Qed.
 
-Lemma after_req_tbl st o : ps_tbl (after_req st o) = ps_tbl st.
+Lemma after_req_tbl kf fs st o : ps_tbl (after_req kf fs st o) = ps_tbl st.
 Proof. destruct o; reflexivity. Qed.
 
-Lemma pstep_with_tbl fn url_ok fs st o :
-  ps_tbl (fst (pstep_with fn url_ok fs st o)) =
+Lemma pstep_with_tbl fn kf url_ok fs st o :
+  ps_tbl (fst (pstep_with fn kf url_ok fs st o)) =
   match o with
   | PSave r => save url_ok (ps_tbl st) r
   | PDel p => del (ps_tbl st) p
@@ -175,8 +207,8 @@ Lemma pstep_with_tbl fn url_ok fs st o :
   end.
 Proof. destruct o; cbn [pstep_with fst ps_tbl]; try reflexivity. apply after_req_tbl. Qed.
 
-(* (d) a lookup, a request (whatever it creates), a registration or a closure never changes the table:
-   the table at the end of a history is the table its save/delete operations alone build *)
+(* (d) a lookup, a request (whatever it creates, whatever the factories do), a registration or a closure
+   never changes the table: the table at the end of a history is the table its save/delete operations alone build *)
 Theorem table_untouched url_ok fs ops : forall st,
   ps_tbl (fst (prun url_ok fs st ops)) = fst (rrun url_ok (ps_tbl st) (route_ops ops)).
 Proof.
@@ -193,26 +225,33 @@ Corollary table_is_map_of_route_ops url_ok fs ops st m :
   forall k, abs (ps_tbl (fst (prun url_ok fs st ops))) k = fold_left (astep url_ok) (route_ops ops) m k.
 Proof. intros H k. rewrite table_untouched. apply table_refines_map. exact H. Qed.
 
-(* (e) publish path = lookup path: once a request has created (and thereby registered) a stream,
-   a request for the same canonical path in any spelling returns that stream and creates nothing *)
-Theorem created_then_found url_ok fs st p q lp url i keep st1 sid seen :
-  pinv st = true ->
-  pstep url_ok fs st (PReq p) = (st1, POReq (GCreated lp url i keep) sid seen) ->
+(* (e) publish path = lookup path, composed with the factory contract: once a request has made an honest
+   factory create (and thereby register) a stream, the registry is the old one with exactly that stream put
+   under the canonical requested path (no other key appears, every stream under another key survives), and a
+   request for the same canonical path in any spelling returns that stream and creates nothing *)
+Theorem created_then_found url_ok fs st p q lp url i keep st1 sid seen reg :
+  pinv st = true -> Forall honest fs ->
+  pstep url_ok fs st (PReq p) = (st1, POReq (GCreated lp url i keep) sid seen reg) ->
   canonical_path q = canonical_path p ->
   sid = Some (ps_next st) /\
+  reg = ps_reg st1 /\ ps_reg st1 = reg_put (ps_reg st) (canonical_path p) (ps_next st) /\
   reg_get (ps_reg st1) (canonical_path p) = Some (ps_next st) /\
-  pstep url_ok fs st1 (PReq q) = (st1, POReq (GExisting (ps_next st)) (Some (ps_next st)) []).
+  (forall k, bytes_eqb (canonical_path p) k = false -> reg_get (ps_reg st1) k = reg_get (ps_reg st) k) /\
+  pstep url_ok fs st1 (PReq q) = (st1, POReq (GExisting (ps_next st)) (Some (ps_next st)) [] (ps_reg st1)).
 Proof.
-  intros I H E. pose proof (req_stable_all p) as S. unfold pinv in I. apply andb_true_iff in I as [U NE].
+  intros I HF H E. unfold pinv in I. apply andb_true_iff in I as [U NE].
   unfold pstep, pstep_with in H.
   remember (get_or_create (ps_reg st) (ps_tbl st) fs p) as o eqn:Ho.
-  injection H as H1 H2 H3 H4. subst o. rewrite H2 in H1, H3. cbn [goc_sid after_req] in H1, H3.
+  injection H as H1 H2 H3 H4 H5. subst o. rewrite H2 in H1, H3, H5. cbn [goc_sid after_req] in H1, H3, H5.
   assert (created_of (get_or_create (ps_reg st) (ps_tbl st) fs p) = Some (lp, url, i, Some keep)) as C
     by (rewrite H2; reflexivity).
   apply (created_meaning _ _ _ _ _ _ _ _ U NE) in C as (_ & Elp & _).
-  assert (reg_get (ps_reg st1) (canonical_path p) = Some (ps_next st)) as G.
-  { rewrite <- H1. cbn [ps_reg]. unfold publish. rewrite Elp, (req_stable_eq p S). apply reg_get_put_same. }
-  split; [symmetry; exact H3|]. split; [exact G|].
+  rewrite (key_code_honest fs i lp url HF) in H1, H5.
+  rewrite Elp, canonical_path_idem in H1, H5.
+  assert (ps_reg st1 = reg_put (ps_reg st) (canonical_path p) (ps_next st)) as R by (rewrite <- H1; reflexivity).
+  assert (reg_get (ps_reg st1) (canonical_path p) = Some (ps_next st)) as G by (rewrite R; apply reg_get_put_same).
+  split; [symmetry; exact H3|]. split; [rewrite R; symmetry; exact H5|]. split; [exact R|]. split; [exact G|].
+  split; [intros k N; rewrite R; apply reg_get_put_other; exact N|].
   apply fast_path_step. rewrite E. exact G.
 Qed.
 
@@ -220,7 +259,7 @@ Qed.
 Theorem published_then_found url_ok fs st p q :
   canonical_path q = canonical_path p ->
   let st1 := fst (pstep url_ok fs st (PPublish p)) in
-  pstep url_ok fs st1 (PReq q) = (st1, POReq (GExisting (ps_next st)) (Some (ps_next st)) []).
+  pstep url_ok fs st1 (PReq q) = (st1, POReq (GExisting (ps_next st)) (Some (ps_next st)) [] (ps_reg st1)).
 Proof.
   intros E st1. apply fast_path_step. subst st1. cbn. unfold publish. rewrite E. apply reg_get_put_same.
 Qed.
@@ -232,8 +271,8 @@ Theorem closed_then_fresh url_ok fs st p q :
 Proof. intros E. cbn. unfold media_get. rewrite E. apply reg_get_del_same. Qed.
 
 (* ---------- invariants and the oracle ---------- *)
-Lemma pstep_inv fn url_ok fs st o :
-  pop_wf url_ok o = true -> pinv st = true -> pinv (fst (pstep_with fn url_ok fs st o)) = true.
+Lemma pstep_inv fn kf url_ok fs st o :
+  pop_wf url_ok o = true -> pinv st = true -> pinv (fst (pstep_with fn kf url_ok fs st o)) = true.
 Proof.
   unfold pinv. intros W I. rewrite pstep_with_tbl. apply andb_true_iff in I as [U NE].
   destruct o; try (rewrite U, NE; reflexivity).
@@ -241,12 +280,18 @@ Proof.
   - rewrite (del_uniq _ pat U), (del_urls _ pat NE). reflexivity.
 Qed.
 
-Lemma pstep_eq_spec url_ok fs st o :
-  pop_wf url_ok o = true -> pinv st = true -> pstep url_ok fs st o = pstep_spec url_ok fs st o.
+Lemma after_req_honest fs st o : Forall honest fs -> after_req key_code fs st o = after_req key_spec fs st o.
 Proof.
-  intros W I. unfold pinv in I. apply andb_true_iff in I as [U NE].
+  intros HF. destruct o; try reflexivity. cbn [after_req]. rewrite (key_code_honest fs fi lp url HF). reflexivity.
+Qed.
+
+Lemma pstep_eq_spec url_ok fs st o :
+  Forall honest fs -> pop_wf url_ok o = true -> pinv st = true ->
+  pstep url_ok fs st o = pstep_spec url_ok fs st o.
+Proof.
+  intros HF W I. unfold pinv in I. apply andb_true_iff in I as [U NE].
   destruct o; try reflexivity. unfold pstep, pstep_spec, pstep_with.
-  rewrite (goc_is_spec _ _ fs p U NE). reflexivity.
+  rewrite (goc_is_spec _ _ fs p U NE), (after_req_honest fs st _ HF). reflexivity.
 Qed.
 
 Lemma goc_eqb_refl o : goc_eqb o o = true.
@@ -257,31 +302,42 @@ Lemma optz_eqb_refl o : optz_eqb o o = true.
 Proof. destruct o; cbn; [apply Z.eqb_refl | reflexivity]. Qed.
 Lemma lbytes_eqb_refl l : lbytes_eqb l l = true.
 Proof. induction l; cbn; [reflexivity|]. rewrite bytes_eqb_refl. exact IHl. Qed.
+Lemma reg_eqb_refl g : reg_eqb g g = true.
+Proof. induction g as [|[k i] g IH]; cbn; [reflexivity|]. rewrite bytes_eqb_refl, Z.eqb_refl. exact IH. Qed.
+Lemma reg_eqb_eq a : forall b, reg_eqb a b = true -> a = b.
+Proof.
+  induction a as [|[k i] a IH]; intros [|[k' i'] b]; cbn; try discriminate; [reflexivity|].
+  intros H. apply andb_true_iff in H as [H R]. apply andb_true_iff in H as [K I].
+  apply bytes_eqb_eq in K. apply Z.eqb_eq in I. rewrite (IH b R). congruence.
+Qed.
 Lemma pout_eqb_refl o : pout_eqb o o = true.
 Proof.
   destruct o; cbn; try reflexivity.
   - apply Z.eqb_refl.
   - apply optz_eqb_refl.
-  - rewrite goc_eqb_refl, optz_eqb_refl, lbytes_eqb_refl. reflexivity.
+  - rewrite goc_eqb_refl, optz_eqb_refl, lbytes_eqb_refl, reg_eqb_refl. reflexivity.
   - apply list_eqb_route_refl.
 Qed.
 
-(* the oracle applied to the implementation accepts the model on every well-formed history *)
-Theorem publish_model_passes url_ok fs ops : forall st,
+(* the oracle applied to the implementation accepts the model on every well-formed history,
+   for every list of factories that keep the contract *)
+Theorem publish_model_passes url_ok fs ops : Forall honest fs -> forall st,
   forallb (pop_wf url_ok) ops = true -> pinv st = true ->
   ok_phist url_ok fs st ops (snd (prun url_ok fs st ops)) = true.
 Proof.
-  unfold prun. induction ops as [|o ops IH]; intros st W I; [reflexivity|].
+  intros HF. unfold prun. induction ops as [|o ops IH]; intros st W I; [reflexivity|].
   cbn [forallb] in W. apply andb_true_iff in W as [Wo W].
   rewrite prun_with_cons. cbn [snd ok_phist].
-  rewrite <- (pstep_eq_spec url_ok fs st o Wo I).
+  rewrite <- (pstep_eq_spec url_ok fs st o HF Wo I).
   destruct (pstep url_ok fs st o) as [st1 out] eqn:P. cbn [fst snd].
   rewrite pout_eqb_refl. cbn [andb]. apply IH; [exact W|].
   replace st1 with (fst (pstep url_ok fs st o)) by (rewrite P; reflexivity).
   apply pstep_inv; assumption.
 Qed.
 
-(* and an answer the oracle accepts is the specification's answer (the oracle is not lax) *)
+(* and an answer the oracle accepts is the specification's answer (the oracle is not lax):
+   the outcome, and the registry afterwards — the old registry with at most the created stream
+   put under the canonical requested path *)
 Lemma goc_eqb_eq a b : goc_eqb a b = true -> a = b.
 Proof.
   destruct a, b; cbn; try discriminate; try reflexivity; intros H.
@@ -292,21 +348,28 @@ Proof.
     apply bytes_eqb_eq in H. apply bytes_eqb_eq in H1. apply Nat.eqb_eq in H0. congruence.
 Qed.
 
-Theorem oracle_sound_request url_ok fs st p got sid seen ops outs :
-  ok_phist url_ok fs st (PReq p :: ops) (POReq got sid seen :: outs) = true ->
-  got = spec_goc (ps_reg st) (ps_tbl st) fs p.
+Theorem oracle_sound_request url_ok fs st p got sid seen reg ops outs :
+  ok_phist url_ok fs st (PReq p :: ops) (POReq got sid seen reg :: outs) = true ->
+  got = spec_goc (ps_reg st) (ps_tbl st) fs p /\
+  reg = match got with
+        | GCreated _ _ _ _ => reg_put (ps_reg st) (canonical_path p) (ps_next st)
+        | _ => ps_reg st
+        end.
 Proof.
   cbn [ok_phist pstep_spec pstep_with]. intros H. apply andb_true_iff in H as [H _].
-  cbn [pout_eqb] in H. apply andb_true_iff in H as [H _]. apply andb_true_iff in H as [H _].
-  apply goc_eqb_eq. exact H.
+  cbn [pout_eqb] in H. apply andb_true_iff in H as [H R]. apply andb_true_iff in H as [H _].
+  apply andb_true_iff in H as [H _]. apply goc_eqb_eq in H. apply reg_eqb_eq in R.
+  split; [exact H|]. rewrite R, H. unfold spec_goc.
+  destruct (reg_get (ps_reg st) (canonical_path p)); [reflexivity|].
+  destruct (spec_match (ps_tbl st) p); try reflexivity.
+  destruct (first_can fs (r_url r) 0) as [[i f]|]; [|reflexivity].
+  destruct (f_ok f (canonical_path p) (r_url r)); [|reflexivity].
+  cbn [after_req ps_reg]. unfold key_spec. rewrite canonical_path_idem. reflexivity.
 Qed.
 
-(* ---------- the guard used to be needed: the finding, now fixed ---------- *)
-(* Before the fix "CanonicalPath is idempotent" the request "/a /b/.." was looked up under "/a " and
-   published under "/a", so the same request pulled a second time (the one-pass body is not idempotent:
-   CanonProofs.canonical_once_not_idem).  With the repaired CanonicalPath the request is stable and
-   the second request finds the stream of the first. *)
-Definition any_factory : factory := {| f_can := fun _ => true; f_ok := fun _ _ => true; f_real := false |}.
+(* ---------- the former known finding (CanonicalPath not idempotent), now repaired: regression witness ---------- *)
+Definition any_factory : factory :=
+  {| f_can := fun _ => true; f_ok := fun _ _ => true; f_real := false; f_key := newstream_key |}.
 Definition unstable_req : bytes := [47; 97; 32; 47; 98; 47; 46; 46].          (* "/a /b/.." *)
 Definition unstable_tbl : table := [ {| r_pat := [47; 97]; r_url := [117]; r_keep := true |} ].
 
@@ -314,6 +377,37 @@ Theorem publish_unstable_fixed :
   let st := {| ps_reg := []; ps_tbl := unstable_tbl; ps_next := 0 |} in
   pinv st = true /\ req_stable unstable_req = true /\
   let st1 := fst (pstep (fun _ => true) [any_factory] st (PReq unstable_req)) in
-  snd (pstep (fun _ => true) [any_factory] st (PReq unstable_req)) = POReq (GCreated [47; 97] [117] 0 true) (Some 0) [] /\
-  snd (pstep (fun _ => true) [any_factory] st1 (PReq unstable_req)) = POReq (GExisting 0) (Some 0) [].
+  snd (pstep (fun _ => true) [any_factory] st (PReq unstable_req)) =
+    POReq (GCreated [47; 97] [117] 0 true) (Some 0) [] [([47; 97], 0)] /\
+  snd (pstep (fun _ => true) [any_factory] st1 (PReq unstable_req)) =
+    POReq (GExisting 0) (Some 0) [] [([47; 97], 0)].
 Proof. vm_compute. repeat split. Qed.
+
+(* ---------- the contract is needed: a factory that takes the publish path from a parsed URL ---------- *)
+(* keeps only what precedes the first '#' (what url.Parse("rtsp://localhost"+path).Path does to a fragment) *)
+Fixpoint cut_hash (s : bytes) : bytes :=
+  match s with [] => [] | c :: s' => if c =? 35 then [] else c :: cut_hash s' end.
+Definition cutting_factory : factory :=
+  {| f_can := fun _ => true; f_ok := fun _ _ => true; f_real := true;
+     f_key := fun lp _ => canonical_path (cut_hash (canonical_path lp)) |}.
+
+(* directory route "/c/" -> "u"; somebody's stream 0 is live under "/c/d"; the request "/c/d#2" makes the
+   factory publish under "/c/d": stream 0 is replaced, "/c/d#2" stays unregistered, and the same request
+   pulls again *)
+Theorem contract_needed_refuted :
+  let st := {| ps_reg := [([47;99;47;100], 0)]; ps_next := 1;
+               ps_tbl := [ {| r_pat := [47;99;47]; r_url := [117]; r_keep := true |} ] |} in
+  let req := [47;99;47;100;35;50] in
+  pinv st = true /\ ~ honest cutting_factory /\
+  let st1 := fst (pstep (fun _ => true) [cutting_factory] st (PReq req)) in
+  snd (pstep (fun _ => true) [cutting_factory] st (PReq req)) =
+    POReq (GCreated req [117;47;100;35;50] 0 true) (Some 1) [[117;47;100;35;50]] [([47;99;47;100], 1)] /\
+  snd (pstep (fun _ => true) [cutting_factory] st1 (PReq req)) =
+    POReq (GCreated req [117;47;100;35;50] 0 true) (Some 2) [[117;47;100;35;50]] [([47;99;47;100], 2)] /\
+  ok_phist (fun _ => true) [cutting_factory] st [PReq req]
+    (snd (prun (fun _ => true) [cutting_factory] st [PReq req])) = false.
+Proof.
+  cbv zeta. split; [vm_compute; reflexivity|]. split.
+  - intros H. specialize (H [47;99;47;100;35;50] []). vm_compute in H. discriminate.
+  - vm_compute. repeat split.
+Qed.
